@@ -235,7 +235,7 @@ def evidence_extra():
     try:
         return {"anchors": anchors()}
     except Exception as e:
-        return {"anchors": ["anchor check failed: %r" % e]}
+        return {"anchors": [("anchor check failed: %r" % e)[:300]]}
 
 
 SHRINK_LISTS = ["ops"]
